@@ -7,6 +7,7 @@ import warnings
 
 from decwire import cell
 from project import project
+from rebuild import rebuild
 
 
 class ModelFailure(RuntimeError):
@@ -99,7 +100,12 @@ def run_batt(s, battery, cutoff, pfunc, dfunc, cid, fail_at=None, ref=True, max_
         if ref and (cnt["solve"] <= 3 or cnt["solve"] % ref_every == 0):
             busy["ref"] = True
             try:
-                c2 = copy.deepcopy(s)
+                # a system built from scratch from the projected state (the battery Source carries the values the
+                # loop has just written): independent of anything the live object may have cached
+                try:
+                    c2 = rebuild(project(s))
+                except Exception:
+                    c2 = copy.deepcopy(s)
                 with warnings.catch_warnings():
                     warnings.simplefilter("ignore")
                     df = c2.solve(vtol=1e-5, itol=1e-6, phase=phase)
